@@ -529,6 +529,8 @@ def main(argv=None):
                     help="write baseline/<prop>.<tier>.json (obligations discharged on this tree); run on the pinned tree only")
     args = ap.parse_args(argv)
     prop = args.prop
+    if args.case is not None:
+        os.environ["VERIF_SINGLE_CASE"] = "1"
     if args.src_root:
         os.environ["VERIF_SRC"] = args.src_root      # replayers and the concrete engine follow
     tier = "thorough" if args.tier == "thorough" else "quick"
